@@ -51,8 +51,9 @@ func c11Conn(r *vf.Run, t *testing.T, id string, rng *rand.Rand) {
 	placement := rng.Intn(3) // 0 before any response, 1 after some response headers, 2 after some complete responses
 	ending := rng.Intn(3)    // 0 stays, 1 EOF, 2 RST
 	lateReqs := rng.Intn(3)
+	blockedUploads := rng.Intn(3) == 0
 	var triggers []string
-	replay := map[string]any{"level": "conn", "in_flight": n, "last_class": lastClass, "code": code, "placement": placement, "ending": ending, "late_requests": lateReqs}
+	replay := map[string]any{"level": "conn", "blocked_uploads": blockedUploads, "in_flight": n, "last_class": lastClass, "code": code, "placement": placement, "ending": ending, "late_requests": lateReqs}
 	failed := false
 	fail := func(rule, detail string) {
 		if !failed {
@@ -61,7 +62,15 @@ func c11Conn(r *vf.Run, t *testing.T, id string, rng *rand.Rand) {
 		failed = true
 	}
 	res := rt.RunBubble(t, id, 60*time.Second, func() {
-		e := rt.NewClientEnv(id, rt.ClientOpts{PeerSettings: []wire.Setting{{ID: 4, Val: 1 << 20}}})
+		// in a third of the cases the server's window is (nearly) shut, so that uploads are still waiting for window,
+		// streamed bodies unread, when the GOAWAY and the answers arrive
+		srvWindow := uint32(1 << 20)
+		maxBody := 2000
+		if blockedUploads {
+			srvWindow = []uint32{0, 1000}[rng.Intn(2)]
+			maxBody = 30000
+		}
+		e := rt.NewClientEnv(id, rt.ClientOpts{PeerSettings: []wire.Setting{{ID: 4, Val: srvWindow}}})
 		if e.HandshakeErr != nil {
 			fail("handshake", e.HandshakeErr.Error())
 			return
@@ -70,7 +79,15 @@ func c11Conn(r *vf.Run, t *testing.T, id string, rng *rand.Rand) {
 		reqs := make([]*cliReq, n)
 		calls := make([]*rt.Call, n)
 		for i := range reqs {
-			reqs[i] = genCliReq(rng, id, i, 2000, 3000)
+			reqs[i] = genCliReq(rng, id, i, maxBody, 3000)
+			if blockedUploads && rng.Intn(2) == 0 {
+				q := reqs[i]
+				q.Method = "POST"
+				q.Body = make([]byte, 1500+rng.Intn(maxBody))
+				rng.Read(q.Body)
+				q.BodyMode = 1 + rng.Intn(3)
+				q.ReadChunk = []int{0, 100, 5000}[rng.Intn(3)]
+			}
 			reqs[i].SplitSeed, reqs[i].TrailSplit = nil, nil
 			calls[i] = e.Do(reqs[i].Tag, reqs[i].build)
 			rt.Wait()
@@ -240,7 +257,10 @@ func c11Conn(r *vf.Run, t *testing.T, id string, rng *rand.Rand) {
 		e.Finish()
 	})
 	c01Outcome(r, id, res, triggers, replay, "C11")
-	r.Eval(vf.Hash("conn", n, lastClass, code, placement, ending, lateReqs), true)
+	r.Eval(vf.Hash("conn", n, lastClass, code, placement, ending, lateReqs, blockedUploads), true)
+	if blockedUploads {
+		r.Inc("cases_with_uploads_waiting_for_window_at_goaway", 1)
+	}
 	if r.WantSample() {
 		r.Sample(replay)
 	}
